@@ -1633,8 +1633,19 @@ def extract(driver, wanted, includes, defines=(), std="c++17", externals=None, o
     em = Emitter(ast, externals=externals, opaque=opaque, type_map=type_map, extern_funcs=extern_funcs)
     names = {}
     for w in wanted:
-        canon = ast.find(w)
-        names[w] = em.request(canon)
+        # "a || b": alternatives (e.g. a parameter taken by value or by const reference); the result is
+        # registered under the first spelling
+        alts = [x.strip() for x in w.split("||")]
+        canon, err = None, None
+        for a in alts:
+            try:
+                canon = ast.find(a)
+                break
+            except Unsupported as e:
+                err = err or e
+        if canon is None:
+            raise err
+        names[alts[0]] = em.request(canon)
     em.run()
     return em, names
 
